@@ -697,6 +697,10 @@ func (w *c13world) emitSend() {
 	}
 	cl.c.Down.Release(func(f rig.Frame) bool { return f.Head && f.Hdr.Type == net.Event })
 	held := w.released(c, nw, nf, "emitSend")
+	if len(w.emits) == 0 {
+		w.surprise("the object wrote an Event frame to connection %d although the schedule has not emitted anything yet", c)
+		return
+	}
 	w.emits[len(w.emits)-1].written[c] = true
 	w.lab("LEmitSend")
 	if held {
